@@ -1,7 +1,7 @@
 #!/usr/bin/env bash
 # usage: tools/try_patch.sh <patch.diff> <Cxx> [Cyy ...]   (applies to /repo, runs quick checks, reverts)
 set -u
-patch="$1"; shift
+patch="$(realpath "$1")"; shift
 cd /repo || exit 3
 if ! git diff --quiet; then echo "/repo has uncommitted changes" >&2; exit 3; fi
 git apply "$patch" || { echo "patch does not apply" >&2; exit 3; }
